@@ -433,6 +433,13 @@ Definition write_file (w : world) (p : name) (f : lutfile) : world :=
   mkWorld ((p, f) :: w_files w) (w_internal w) (w_ext w) (w_heap w)
           (w_next w).
 
+(* del EXTERNAL_LUTS[i] (EXTERNAL_LUTS.pop(i, None)): the only way to bind an
+   identifier to another file is to remove it and register it again *)
+Definition unregister (w : world) (i : name) : world :=
+  mkWorld (w_files w) (w_internal w)
+          (filter (fun kv => negb (fst kv =? i)%Z) (w_ext w))
+          (w_heap w) (w_next w).
+
 (* get_lut_path: an existing path wins, then built-in identifiers, then
    registered ones *)
 Definition get_lut_path (w : world) (x : name) : res name :=
@@ -552,7 +559,8 @@ Section EmodWorld.
   | OCall (d : lutdata) (S : setup) (m : medium) (evs : list event)
   | ORegister (path : name) (ident : option name)
   | OWriteFile (path : name) (f : lutfile)
-  | OMutate (a : N) (rows : list node).
+  | OMutate (a : N) (rows : list node)
+  | OUnregister (i : name).       (* the user deletes EXTERNAL_LUTS[i] *)
 
   Inductive outcome :=
   | OutCall (r : res (list (option Q)))
@@ -567,6 +575,7 @@ Section EmodWorld.
         let (w', r) := register_lut w p i in (w', OutReg r)
     | OWriteFile p f => (write_file w p f, OutUnit)
     | OMutate a rows => (hwrite w a rows, OutUnit)
+    | OUnregister i => (unregister w i, OutUnit)
     end.
 
   Fixpoint run_ops (w : world) (ops : list op) : world * list outcome :=
